@@ -4,7 +4,7 @@ import json, os, subprocess
 V = os.path.dirname(os.path.dirname(os.path.abspath(__file__)))
 PY = "PYTHONHASHSEED=0 PYTHONDONTWRITEBYTECODE=1 HGX_VERIF=1 /venv/bin/python -m hgxverif.run"
 
-READY = set(os.environ.get("HGX_READY", "C01 C02 C03 C04 C05 C06 C07 C08 C09 C10 C11 C12 C13 C14 C18 C20").split())
+READY = set(os.environ.get("HGX_READY", "C01 C02 C03 C04 C05 C06 C07 C08 C09 C10 C11 C12 C13 C14 C17 C18 C19 C20").split())
 
 CHECKS = {
  # id: (technique, level text, design_ref, note)
@@ -91,13 +91,13 @@ def main():
             "level_note": note,
             "technique": tech,
         })
-    hooks_commits = []
+    hooks_commits = ["b58869d", "af39aea"]
     m = {
         "version": 1,
         "setup_cmd": "/venv/bin/python -c 'import hypothesis' 2>/dev/null || PIP_NO_INDEX=1 /venv/bin/pip install --no-index --find-links /opt/veriftools/wheels hypothesis",
         "hooks": {
             "guard": "HGX_VERIF",
-            "enable": "environment variable HGX_VERIF=1 (set by every check command); no hook is currently installed in /repo - all oracles use the public API only",
+            "enable": "environment variable HGX_VERIF=1 (set by every check command). Only hook: add-only counters/log of numerical guard events in hypergraphx/communities/hypergraph_mt/model.py (GUARD_EVENTS, GUARD_LOG, _verif_guard_event), read by C17 to attribute likelihood decreases to guard call sites; inert when the variable is unset. All other oracles use the public API only.",
             "baseline_off_cmd": "cd /repo && env -u HGX_VERIF /venv/bin/python -m pytest -ra -q -p no:cacheprovider --timeout=900 --continue-on-collection-errors",
             "source_commits": hooks_commits,
             "add_only": True,
